@@ -225,8 +225,7 @@ def c12Case (id : String) (payload : List Sexp) : List String :=
       sqls := ((p.field? "sqls").map (·.args)).getD [] |>.filterMap parseSqlIn,
       ints := probesOf p, encs := intsOf p "encs" }
     let pr := q.ints.map (fun (_, kV, v) => (kV, v))
-    let reg := if WF i && !probesOK pr then "Out"
-      else if WF i && F_isenum_sign i.kind i.decl pr then "F_isenum_sign" else region i
+    let reg := if WF i && !probesOK pr then "Out" else region i
     both id (c12Model i q) (c12Spec i q) reg
 
 /-- the IsEnum probe matrix of one enum over every integer type TV (separate case so that a finding
@@ -238,7 +237,7 @@ def c12tCase (id : String) (payload : List Sexp) : List String :=
   | some i =>
     let ints := probesOf p
     let pr := ints.map (fun (_, kV, v) => (kV, v))
-    let reg := if !WF i || !probesOK pr then "Out" else if F_isenum_sign i.kind i.decl pr then "F_isenum_sign" else "WF"
+    let reg := if !WF i || !probesOK pr then "Out" else "WF"
     match gen i.kind i.T i.blocks with
     | .file cs =>
       both id (ints.map (fun (n, kV, v) => (s!"isenum:{n}:{v}", toString (isEnum i.kind kV (valuesT cs) v))))
